@@ -493,3 +493,93 @@ def rule_parent_state(ctx, rep, config="c-lib"):
         rep.violation("C03-parent", "make_parse/one-parent-state", "the states pushed for the candidates of one nonterminal are hung under different parse states: the store at %s "
                       "uses another state than the %d sibling stores -- the translation of that candidate lands in the abstract node of another split, the node copied for "
                       "this split keeps an empty slot" % (minority[1][0].where(), n - len(minority[1])), where=minority[1][0].where(), witness=[s_.where() for ss in bases.values() for s_ in ss][:6])
+
+
+def rule_slot_pairing(ctx, rep, config="c-lib"):
+    rep.rule("C03-slot", "a translation is placed into `children + index' of an abstract node: when the node is the parent's node (reached through parent_anode_state) "
+                         "the index is the state's parent_disp, when it is the state's own node the index is the rule's order[pos]; the two are never crossed "
+                         "(all slot arguments of place_translation / copy_anode in make_parse)")
+    from ..model import strip_int_casts
+    p = ctx.prog(config)
+    f = p.fn("make_parse")
+    rep.cover(p, [f.name])
+
+    def node_kind(op, depth=0):
+        i = f.inst(strip_casts(f, op))
+        if i is None or depth > 4:
+            return None
+        if i.op == "phi":
+            ks = set(node_kind(v, depth + 1) for (v, _) in i.d["incoming"] if v.get("k") not in ("undef",))
+            ks.discard(None)
+            return ks.pop() if len(ks) == 1 else None
+        if i.op != "load":
+            return None
+        pa = resolve_addr(f, i.ops[0])
+        if pa.last_field() != "parse_state.anode" or pa.root[0] != "val":
+            return None
+        s_ = f.inst(strip_casts(f, pa.root[1]))
+        # the state: itself loaded from some state's parent_anode_state?
+        def via_parent(x, d=0):
+            if x is None or d > 4:
+                return False
+            if x.op == "load":
+                return resolve_addr(f, x.ops[0]).last_field() == "parse_state.parent_anode_state"
+            if x.op == "phi":
+                vs = [f.inst(strip_casts(f, v)) for (v, _) in x.d["incoming"] if v.get("k") == "i"]
+                return bool(vs) and all(via_parent(v, d + 1) for v in vs)
+            return False
+        return "parent" if via_parent(s_) else "own"
+
+    def idx_kind(op, depth=0):
+        i = f.inst(strip_int_casts(f, op))
+        if i is None or depth > 4:
+            return None
+        if i.op == "phi":
+            ks = set(idx_kind(v, depth + 1) for (v, _) in i.d["incoming"] if v.get("k") not in ("undef",))
+            ks.discard(None)
+            return ks.pop() if len(ks) == 1 else None
+        if i.op != "load":
+            return None
+        pa = resolve_addr(f, i.ops[0])
+        if pa.last_field() == "parse_state.parent_disp":
+            return "parent"
+        if pa.root[0] == "val":
+            b = loaded_from(f, pa.root[1])
+            if b is not None and b.last_field() == "rule.order":
+                return "own"
+        return None
+
+    def slots(op, depth=0):
+        i = f.inst(strip_casts(f, op))
+        if i is None or depth > 4:
+            return []
+        if i.op in ("phi",):
+            out = []
+            for (v, _) in i.d["incoming"]:
+                out += slots(v, depth + 1)
+            return out
+        if i.op == "select":
+            return slots(i.ops[1], depth + 1) + slots(i.ops[2], depth + 1)
+        if i.op == "getelementptr" and len(i.d["path"]) == 1 and "ptr" in i.d["path"][0]:
+            bl = f.inst(strip_casts(f, i.d["base"]))
+            if bl is not None and bl.op == "load":
+                bp = resolve_addr(f, bl.ops[0])
+                if (bp.last_field() or "").endswith("yaep_anode.children") and bp.root[0] == "val":
+                    return [(i, node_kind(bp.root[1]), idx_kind(i.d["path"][0]["ptr"]))]
+        return []
+    n = 0
+    for c_ in f.calls():
+        if c_.callee not in ("place_translation", "copy_anode"):
+            continue
+        for (g, nk, ik) in slots(c_.args[0]):
+            n += 1
+            key = "make_parse/slot#%d" % n
+            if nk is None or ik is None:
+                raise AnalysisBroken("C03-slot: slot expression at %s not of the known shape (node %s, index %s)" % (g.where(), nk, ik))
+            if nk == ik:
+                rep.ok("C03-slot", key, sample={"slot": g.where(), "node": nk, "index": ik})
+            else:
+                rep.violation("C03-slot", key, "a translation is placed into the %s node's child array at the %s index: it lands in another field of the node (a field that "
+                              "has its own translation gets a second one -- an ALT node in a one-parse tree -- and the intended field stays empty)" % (
+                                  "parent's" if nk == "parent" else "state's own", "state's parent_disp" if ik == "parent" else "rule's order[pos]"), where=g.where(), witness=[g.where(), c_.where()])
+    rep.floor("C03-slot", "slot expressions", n, 8)
